@@ -29,6 +29,9 @@ PHRASE = {
     "raise_timeout": "times out",
     # a plain NotImplementedError (abstract helper, platform stub) is an exception like any other: error, never pending
     "raise_notimpl": "hits a stub",
+    # a passing step whose parameter is converted to a NON-SCALAR value (a list): it passes iff its function
+    # receives exactly the converted value
+    "takes": "takes a,b,c",
 }
 TYPED_RESULT = {"given": "pass", "when": "undefined", "then": "fail"}
 STEP_TYPES = ("given", "when", "then")
